@@ -155,6 +155,7 @@ def case_line(c):
     t += [hx(x) for x in c["b"] + c["pos"] + c["dir"]] + [str(c["prestart"])]
     t += [hx(x) for x in c["opts"][:11]] + [str(c["opts"][11]), str(c["opts"][12])]
     t += [str(len(c["steps"]))] + [hx(x) for x in c["steps"]]
+    t += [str(c.get("reuse", 0))]
     return " ".join(t)
 
 
@@ -283,6 +284,10 @@ def start(ctx, exe):
     job["hcases"] = gen_helix_cases(r, 300 if quick else 5000)
     ne = int(os.environ.get("C08_E2E_N", "0")) or (3000 if quick else 20000)   # override: ad-hoc experiments
     job["cases"] = [gen_case(r, COEFF) for _ in range(ne)]
+    for k, c in enumerate(job["cases"]):
+        # every other case makes all its calls on ONE propagator object (internal state
+        # persists between calls); the others construct a fresh propagator per call
+        c["reuse"] = k % 2
 
     def work():
         try:
@@ -369,6 +374,7 @@ def finish(ctx, job, PRE):
             continue
         ctx.case(key, nontrivial=True)
         ctx.count("e2e:%s/%s/%s" % (c["geom"], fn[c["fk"]], sn[c["sk"]]))
+        ctx.count("e2e:propagator:%s" % ("one-object-for-all-calls" if c.get("reuse") else "fresh-per-call"))
         for cl in o["calls"]:
             ctx.count("e2e:outcome:" + ("looping" if cl["loop"] else "boundary" if cl["bnd"] else "interior"))
         if o["start"]["onb"]:
